@@ -93,6 +93,9 @@ def assign_tokens_until_matching_closing_paren(token, iToken, lObjects):
     iCurrent = iToken
     while iCurrent < len(lObjects):
         iCurrent = find_next_token(iCurrent, lObjects)
+        if type(lObjects[iCurrent]) != parser.item:
+            # ran out of unclassified tokens before the parenthesis was closed
+            print_missing_error_message([")"], iToken, lObjects)
         iCounter = update_paren_counter(iCurrent, lObjects, iCounter)
         if token_is_close_parenthesis(iCurrent, lObjects) and iCounter == 0:
             return iCurrent
@@ -1007,6 +1010,9 @@ def skip_tokens_until_matching_closing_paren(iToken, lObjects):
     iCurrent = iToken
     while iCurrent < len(lObjects):
         iCurrent = find_next_token(iCurrent, lObjects)
+        if type(lObjects[iCurrent]) != parser.item:
+            # ran out of unclassified tokens before the parenthesis was closed
+            print_missing_error_message([")"], iToken, lObjects)
         iCounter = update_paren_counter(iCurrent, lObjects, iCounter)
         if token_is_close_parenthesis(iCurrent, lObjects) and iCounter == 0:
             return iCurrent
